@@ -56,7 +56,8 @@ impl ChannelQueue {
     assert!(capacity > 0, "ChannelQueue must be positive");
 
     Self {
-      queue: VecDeque::with_capacity(capacity),
+      // the buffer grows on demand, a huge capacity must not be reserved up front
+      queue: VecDeque::with_capacity(usize::min(capacity, 64)),
       capacity,
       state: ChannelQueueState::Ready,
       kind: ChannelQueueKind::Buffered,
